@@ -90,10 +90,16 @@ func genNonce(pfx string, max int) ([][]byte, *eat.Nonce) {
 		bs = append(bs, b)
 		n = ndNonceAppend(n, b)
 	}
-	return bs, ndOpt("has."+pfx, n)
+	return bs, ndOpt(pfx+".present", n)
 }
 
 // ---------- generators ----------
+
+// verifGenPfx is prepended to every nd variable name of the claims generators, so that a
+// harness can draw several independent claims-sets.
+var verifGenPfx string
+
+func gn(name string) string { return verifGenPfx + name }
 
 type genSw struct {
 	sc                       *SwComponent
@@ -188,28 +194,28 @@ type genP1 struct {
 
 func genP1Claims(maxN, strMax int) *genP1 {
 	g := &genP1{}
-	g.profile = ndString("profile", 20)
-	g.certRef = ndString("certref", 24)
-	g.vsi = ndString("vsi", strMax)
-	g.clientID = ndInt32("clientid")
-	g.lc = ndUint16("lifecycle")
-	g.implID = ndBytes("implid")
-	g.boot = ndBytes("bootseed")
-	g.nonce = ndBytes("nonce")
-	g.instID = ndBytes("instid")
-	g.noSw = ndUint("nosw")
-	g.sw = genSwComponents("sw", maxN, strMax)
+	g.profile = ndString(gn("profile"), 20)
+	g.certRef = ndString(gn("certref"), 24)
+	g.vsi = ndString(gn("vsi"), strMax)
+	g.clientID = ndInt32(gn("clientid"))
+	g.lc = ndUint16(gn("lifecycle"))
+	g.implID = ndBytes(gn("implid"))
+	g.boot = ndBytes(gn("bootseed"))
+	g.nonce = ndBytes(gn("nonce"))
+	g.instID = ndBytes(gn("instid"))
+	g.noSw = ndUint(gn("nosw"))
+	g.sw = genSwComponents(gn("sw"), maxN, strMax)
 	c := &P1Claims{CanonicalProfile: "PSA_IOT_PROFILE_1"}
-	c.Profile = ndOpt("has.profile", &g.profile)
-	c.ClientID = ndOpt("has.clientid", &g.clientID)
-	c.SecurityLifeCycle = ndOpt("has.lifecycle", &g.lc)
-	c.ImplID = ndOpt("has.implid", &g.implID)
-	c.BootSeed = ndOpt("has.bootseed", &g.boot)
-	c.CertificationReference = ndOpt("has.certref", &g.certRef)
-	c.NoSwMeasurements = ndOpt("has.nosw", &g.noSw)
-	c.Nonce = ndOpt("has.nonce", &g.nonce)
-	c.InstID = ndOpt("has.instid", &g.instID)
-	c.VSI = ndOpt("has.vsi", &g.vsi)
+	c.Profile = ndOpt(gn("has.profile"), &g.profile)
+	c.ClientID = ndOpt(gn("has.clientid"), &g.clientID)
+	c.SecurityLifeCycle = ndOpt(gn("has.lifecycle"), &g.lc)
+	c.ImplID = ndOpt(gn("has.implid"), &g.implID)
+	c.BootSeed = ndOpt(gn("has.bootseed"), &g.boot)
+	c.CertificationReference = ndOpt(gn("has.certref"), &g.certRef)
+	c.NoSwMeasurements = ndOpt(gn("has.nosw"), &g.noSw)
+	c.Nonce = ndOpt(gn("has.nonce"), &g.nonce)
+	c.InstID = ndOpt(gn("has.instid"), &g.instID)
+	c.VSI = ndOpt(gn("has.vsi"), &g.vsi)
 	g.hasProfile = c.Profile != nil
 	g.hasClientID = c.ClientID != nil
 	g.hasLC = c.SecurityLifeCycle != nil
@@ -249,14 +255,17 @@ func specEAN13p5(s string) bool {
 func specInstID(b []byte) bool { return len(b) == 33 && b[0] == 0x01 }
 
 // specP1 is the profile-1 rule set of property C01.
-func (g *genP1) specValid() bool {
+func (g *genP1) specValid() bool { return g.specValidExcept(false) }
+
+// specValidExcept(true): every rule except the security-lifecycle one
+func (g *genP1) specValidExcept(skipLC bool) bool {
 	if g.hasProfile && g.profile != "PSA_IOT_PROFILE_1" {
 		return false
 	}
 	if !g.hasClientID {
 		return false
 	}
-	if !g.hasLC || !specLifecycleValid(g.lc) {
+	if !skipLC && (!g.hasLC || !specLifecycleValid(g.lc)) {
 		return false
 	}
 	if !g.hasImplID || len(g.implID) != 32 {
@@ -304,25 +313,25 @@ type genP2 struct {
 
 func genP2Claims(maxN, strMax, maxNonce int) *genP2 {
 	g := &genP2{}
-	g.certRef = ndString("certref", 24)
-	g.vsi = ndString("vsi", strMax)
-	g.clientID = ndInt32("clientid")
-	g.lc = ndUint16("lifecycle")
-	g.implID = ndBytes("implid")
-	g.boot = ndBytes("bootseed")
-	g.instID = ndBytes("instid")
-	g.sw = genSwComponents("sw", maxN, strMax)
+	g.certRef = ndString(gn("certref"), 24)
+	g.vsi = ndString(gn("vsi"), strMax)
+	g.clientID = ndInt32(gn("clientid"))
+	g.lc = ndUint16(gn("lifecycle"))
+	g.implID = ndBytes(gn("implid"))
+	g.boot = ndBytes(gn("bootseed"))
+	g.instID = ndBytes(gn("instid"))
+	g.sw = genSwComponents(gn("sw"), maxN, strMax)
 	c := &P2Claims{CanonicalProfile: "http://arm.com/psa/2.0.0"}
-	c.Profile, g.profKind, g.profStr = ndEatProfile("profile", 26)
-	c.ClientID = ndOpt("has.clientid", &g.clientID)
-	c.SecurityLifeCycle = ndOpt("has.lifecycle", &g.lc)
-	c.ImplID = ndOpt("has.implid", &g.implID)
-	c.BootSeed = ndOpt("has.bootseed", &g.boot)
-	c.CertificationReference = ndOpt("has.certref", &g.certRef)
-	c.VSI = ndOpt("has.vsi", &g.vsi)
+	c.Profile, g.profKind, g.profStr = ndEatProfile(gn("profile"), 26)
+	c.ClientID = ndOpt(gn("has.clientid"), &g.clientID)
+	c.SecurityLifeCycle = ndOpt(gn("has.lifecycle"), &g.lc)
+	c.ImplID = ndOpt(gn("has.implid"), &g.implID)
+	c.BootSeed = ndOpt(gn("has.bootseed"), &g.boot)
+	c.CertificationReference = ndOpt(gn("has.certref"), &g.certRef)
+	c.VSI = ndOpt(gn("has.vsi"), &g.vsi)
 	u := eat.UEID(g.instID)
-	c.InstID = ndOpt("has.instid", &u)
-	g.nonces, c.Nonce = genNonce("nonce", maxNonce)
+	c.InstID = ndOpt(gn("has.instid"), &u)
+	g.nonces, c.Nonce = genNonce(gn("nonce"), maxNonce)
 	g.hasClientID = c.ClientID != nil
 	g.hasLC = c.SecurityLifeCycle != nil
 	g.hasImplID = c.ImplID != nil
